@@ -168,6 +168,9 @@ func scenariosFor(prop string) []scn {
 		both(flowParams{Sources: 1, Records: 3, Batch: 3, Dests: 1, AckMenu: onlyOK, Window: 1, Thresh: 0, Procs: []procParam{{ID: "pp", Kinds: []string{"p", "e", "p"}}}, Retries: 2}, 1, 2)
 		// ... the same with a processor that runs two workers (v1 wraps it in a parallel node)
 		both(flowParams{Sources: 1, Records: 2, Batch: 1, Dests: 1, AckMenu: onlyOK, Window: 1, Thresh: 0, Procs: []procParam{{ID: "pp", Workers: 2, Kinds: []string{"p", "e"}}}, Retries: 2}, 1, 2)
+		// a processor that never returns a result for one record: the retries do not converge, fatal
+		both(flowParams{Sources: 1, Records: 2, Batch: 2, Dests: 1, AckMenu: onlyOK, Procs: []procParam{{ID: "pp", Kinds: []string{"p", "short"}}}, Retries: 2}, 1, 2)
+		both(flowParams{Sources: 1, Records: 2, Batch: 1, Dests: 1, AckMenu: onlyOK, Procs: []procParam{{ID: "pp", Kinds: []string{"short", "p"}}}, Retries: 2}, 1, 2)
 		// the DLQ connector itself fails while a rejected record is written to it: a DLQ write failure, fatal
 		both(flowParams{Sources: 1, Records: 2, Batch: 1, Dests: 1, AckMenu: okNack, DLQMenu: []string{"ok", "err"}, Retries: 2}, 2, 3)
 		both(flowParams{Sources: 1, Records: 3, Batch: 1, Dests: 1, AckMenu: okNack, Window: 2, Thresh: 1, Retries: 1}, 2, 3)
